@@ -1,3 +1,183 @@
 import FiberModel.DriverUtil
--- stub driver for C20; replaced when the property's model lands
-def main : IO Unit := pure ()
+import FiberModel.C20.Spec
+/-
+Driver for C20. Case fields (after the id):
+  key(hex) except(hexlist) mode(0|1|2) okey(hex, harness only) steps(symbolic, harness only) aux obs
+`aux` = facts derived by the harness with fasthttp's parsers and an independent AES-GCM open, `obs` =
+what the implementation did (see harness/cmd/c20/main.go). The driver never computes AES: the model's
+`Aead` is the finite table of (nonce, ciphertext‖tag, plaintext) triples behind the values the real
+server issued in this very case.
+-/
+open B DriverUtil C20
+
+/-- component: `_` = empty, else hex -/
+def comp (s : String) : Except String Bytes :=
+  if s == "_" then pure [] else
+  match fromHexAux s.toList with
+  | some b => pure b
+  | none => throw s!"outside-domain: bad hex component '{s.take 20}'"
+
+def hc (b : Bytes) : String := if b.isEmpty then "_" else toHex b
+
+def listOf (s : String) : List String := if s == "-" then [] else s.splitOn ","
+
+def parseJar (s : String) : Except String Jar :=
+  (listOf s).mapM fun e => match e.splitOn ":" with
+    | [k, v] => do pure (← comp k, ← comp v)
+    | _ => throw s!"outside-domain: bad cookie entry '{e.take 30}'"
+
+def renderJar (j : Jar) : String :=
+  if j.isEmpty then "-" else ",".intercalate (j.map fun e => hc e.1 ++ ":" ++ hc e.2)
+
+def parseBind (s : String) : Except String (List (Bytes × List Bytes)) :=
+  (listOf s).mapM fun e => match e.splitOn ":" with
+    | k :: vs => do pure (← comp k, ← vs.mapM comp)
+    | _ => throw "outside-domain: bad bind entry"
+
+def renderBind (b : List (Bytes × List Bytes)) : String :=
+  if b.isEmpty then "-" else ",".intercalate (b.map fun e => ":".intercalate (hc e.1 :: e.2.map hc))
+
+structure AuxStep where
+  jar : Jar
+  lookKeys : List Bytes
+  pre : List RCookie
+  postParse : List (Bytes × Bytes × Bytes)     -- pkey, pvalue, tail of each cookie after the middleware
+  opens : List (Option Bytes)                  -- independent open of each value after the middleware
+
+def sect (tag : Char) (s : String) : Except String String :=
+  match s.toList with
+  | c :: r => if c == tag then pure (String.ofList r) else throw s!"outside-domain: expected section {tag}"
+  | [] => throw s!"outside-domain: empty section {tag}"
+
+def parseAuxStep (s : String) : Except String AuxStep := do
+  match s.splitOn "/" with
+  | [j, k, r, p, t] =>
+    let jar ← parseJar (← sect 'J' j)
+    let ks ← (listOf (← sect 'K' k)).mapM comp
+    let pre ← (listOf (← sect 'R' r)).mapM fun e => match e.splitOn ":" with
+      | [a, b, c, d, f] => do
+        pure ({ key := ← comp a, raw := ← comp b, pkey := ← comp c, pvalue := ← comp d, tail := ← comp f } : RCookie)
+      | _ => throw "outside-domain: bad R entry"
+    let pp ← (listOf (← sect 'P' p)).mapM fun e => match e.splitOn ":" with
+      | [a, b, c] => do pure (← comp a, ← comp b, ← comp c)
+      | _ => throw "outside-domain: bad P entry"
+    let ops ← (listOf (← sect 'T' t)).mapM fun e =>
+      if e == "x" then pure none else do pure (some (← comp e))
+    if pp.length != ops.length then throw "outside-domain: P/T length"
+    pure { jar := jar, lookKeys := ks, pre := pre, postParse := pp, opens := ops }
+  | _ => throw "outside-domain: aux step sections"
+
+structure ObsStep where
+  views : Views
+  wire : Option Jar        -- none = panic
+  extra : String           -- anything unexpected the harness flagged
+
+def parseObsStep (s : String) : Except String ObsStep := do
+  match s.splitOn "/" with
+  | [e, l, b, h, w] =>
+    let wtxt ← sect 'W' w
+    let (wcore, extra) := match wtxt.splitOn "!" with
+      | [x] => (x, "")
+      | x :: r => (x, "!".intercalate r)
+      | [] => ("", "")
+    let wire ← if wcore == "panic" then pure none else do pure (some (← parseJar wcore))
+    pure { views := { enum := ← parseJar (← sect 'E' e), look := ← parseJar (← sect 'L' l),
+                      bind := ← parseBind (← sect 'B' b), hdr := ← comp (← sect 'H' h) },
+           wire := wire, extra := extra }
+  | _ => throw "outside-domain: obs step sections"
+
+/-- table entry behind an issued value -/
+structure Entry where
+  nonce : Bytes
+  body : Bytes
+  plain : Bytes
+
+def tableAead (t : List Entry) : Aead :=
+  { sealWith := fun _ n p => match t.find? fun e => e.nonce == n && e.plain == p with
+      | some e => e.body
+      | none => b "?not-sealed-by-the-server?",
+    openWith := fun _ n c => (t.find? fun e => e.nonce == n && e.body == c).map (·.plain) }
+
+def wireOf (mode : Nat) : WireCodec := if mode == 2 then wrapWire else stdWire
+
+/-- (wire text, plaintext) pairs and table entries a step issued -/
+def stepIssued (wc : WireCodec) (a : AuxStep) : Issued × List Entry :=
+  let pairs := (a.postParse.zip a.opens).filterMap fun (pp, o) => o.map fun p => (pp.2.1, p)
+  let ents := pairs.filterMap fun (c, p) =>
+    (wc.canon c).map fun bs => { nonce := bs.take nonceSize, body := bs.drop nonceSize, plain := p : Entry }
+  (pairs, ents)
+
+def renderStep (ex : List Bytes) (C : Codec) (wc : WireCodec) (a : AuxStep) : String × Option (List WCookie) × Jar :=
+  let v := modelViews C ex a.jar a.lookKeys
+  let e := v.enum
+  -- the randomness each encryption drew: read off the value at the same position after the middleware
+  let nonces := (a.pre.zip a.postParse).filterMap fun (c, pp) =>
+    if isDisabled c.key ex then none
+    else some (((wc.canon pp.2.1).map (·.take nonceSize)).getD [])
+  let w := encryptJar C ex nonces a.pre
+  let wtxt := match w with
+    | none => "panic"
+    | some ws => renderJar (ws.map fun (x : WCookie) => (x.key, x.raw))
+  (s!"E{renderJar v.enum}/L{renderJar v.look}/B{renderBind v.bind}/H{hc v.hdr}/W{wtxt}", w, e)
+
+def handleCase (f : List String) : Except String Verdict := do
+  match f with
+  | [id, key, ex, mode, _okey, _steps, aux, impl] =>
+    let some key := fromHex key | throw "outside-domain: key"
+    let some ex := hexList ex | throw "outside-domain: except"
+    let some mode := mode.toNat? | throw "outside-domain: mode"
+    if mode > 2 then throw "outside-domain: mode"
+    if ctorPanics key then
+      return { id := id, modelObs := "ctorpanic", implObs := impl, spec := none, tags := ["ctorpanic"] }
+    if impl == "ctorpanic" then
+      -- the constructor refused a non-empty key: nothing is served; model disagrees
+      return { id := id, modelObs := "served", implObs := impl, spec := none, tags := ["ctorpanic-unexpected"] }
+    let auxs ← (aux.splitOn ";").mapM parseAuxStep
+    let obss ← (impl.splitOn ";").mapM parseObsStep
+    if auxs.length != obss.length then throw "outside-domain: aux/obs step count"
+    let wc := wireOf mode
+    let keyValid := match decode key with
+      | some kd => validKeyLen kd.length
+      | none => false
+    let allEnts := (auxs.map fun a => (stepIssued wc a).2).flatten
+    let A := tableAead allEnts
+    let C := if mode == 2 then wrapCodec (stdCodec A key) else stdCodec A key
+    let mut modelParts : List String := []
+    let mut spec : Option String := none
+    let mut iss : Issued := []
+    let mut tags : List String := []
+    for (a, o) in auxs.zip obss do
+      let (mtxt, _, e) := renderStep ex C wc a
+      modelParts := modelParts ++ [mtxt]
+      -- spec oracle on the implementation's observation
+      if spec.isNone then
+        spec := reqViolation wc ex iss a.jar o.views
+      let (pairs, _) := stepIssued wc a
+      iss := iss ++ pairs
+      if spec.isNone then
+        let post : Option (List WCookie) := o.wire.map fun ws =>
+          (ws.zip a.postParse).map fun (kr, pp) =>
+            { key := kr.1, raw := kr.2, pkey := pp.1, value := pp.2.1, tail := pp.2.2 : WCookie }
+        if let some ws := o.wire then
+          if ws.length != a.postParse.length then throw "outside-domain: W/P length"
+        spec := respViolation wc ex keyValid iss a.pre post
+      if spec.isNone && o.extra != "" then spec := some s!"harness-flag:{o.extra}"
+      -- branch tags
+      let nonEx := a.jar.filter fun kv => !isDisabled kv.1 ex
+      if nonEx.any fun kv => (C.dec kv.2).isSome then tags := tags ++ ["nt-authentic-in"]
+      if nonEx.any fun kv => kv.2 != [] && (C.dec kv.2).isNone then tags := tags ++ ["nt-rejected-in"]
+      if nonEx.any fun kv => (C.dec kv.2).isSome && !(iss.any fun p => p.1 == kv.2) then
+        tags := tags ++ ["nt-noncanonical-accepted"]
+      if (distinctKeys a.jar).length != a.jar.length then tags := tags ++ ["nt-dup-request-names"]
+      if (a.pre.map (·.key)).eraseDups.length != a.pre.length then tags := tags ++ ["nt-dup-response-names"]
+      if a.pre.any fun c => !isDisabled c.key ex then tags := tags ++ ["nt-encrypted-out"]
+      if a.jar.any fun kv => isDisabled kv.1 ex then tags := tags ++ ["except-in"]
+      if a.pre.any fun c => isDisabled c.key ex then tags := tags ++ ["except-out"]
+      if e.length != a.jar.length then tags := tags ++ ["dedup-applied"]
+      if o.wire.isNone then tags := tags ++ ["panic"]
+    let tagsOut := tags.eraseDups ++ (if keyValid then [] else ["invalid-key"]) ++
+      (if mode == 2 then ["custom-codec"] else if mode == 1 then ["explicit-codec"] else [])
+    pure { id := id, modelObs := ";".intercalate modelParts, implObs := impl, spec := spec, tags := tagsOut }
+  | _ => throw s!"outside-domain: expected 8 fields, got {f.length}"
+
+def main : IO Unit := run handleCase
